@@ -45,12 +45,12 @@ DESCS = ['NETFLIX.COM Uber eats', 'star-BUCKS  *7', "O'Reilly Café AMZN Mktp", 
 
 def gen_pattern(rnd):
     a, b = rnd.choice(LITS), rnd.choice(LITS)
-    k = rnd.randint(0, 27)
+    k = rnd.randint(0, 31)      # the last four are not valid regular expressions: the CSV loader accepts them, such a row never matches
     return [
         a, a.lower(), '%s|%s' % (a, b), '%s\\s*%s' % (a, b), '%s\\s+%s' % (a, b), '\\b%s\\b' % a, '\\B%s' % a, '^%s' % a, '%s$' % a, '\\A%s' % a,
         '%s\\Z' % a, '%s.*%s' % (a, b), '%s(?!.*%s)' % (a, b), '(?<!%s)%s' % (a[:2], b), '(%s)\\1' % a, '(%s|%s)\\s\\d+' % (a, b), '%s\\d{2,3}' % a,
         '\\w+-\\w+', '%s\\.COM' % a, 'SQ \\*%s' % a, '%s \\d+' % a, '"%s"' % a, "O'REILLY", 'BACK\\\\SLASH', '[A-Z]{4}\\s[A-Z]{4}', 'A\\+B', '\\(X\\)',
-        '%s[amount]?' % a,
+        '%s[amount]?' % a, '%s\\' % a, 'SQ \\*%s\\' % a, '(%s' % a, '%s[' % a,
     ][k]
 
 
